@@ -91,6 +91,20 @@ func init() {
 		}
 		return normStr(r)
 	}
+	shims["verifByteIn"] = func(in *Interp, fr *frame, args []value) value {
+		c := args[0].(*Term)
+		rs := in.concStr(args[1], "ranges")
+		res := in.tb.False
+		for i := 0; i+1 < len(rs); i += 2 {
+			lo, hi := in.tb.BV(SBV8, uint64(rs[i])), in.tb.BV(SBV8, uint64(rs[i+1]))
+			if rs[i] == rs[i+1] {
+				res = in.tb.Or(res, in.tb.Eq(c, lo))
+			} else {
+				res = in.tb.Or(res, in.tb.And(in.tb.BVULe(lo, c), in.tb.BVULe(c, hi)))
+			}
+		}
+		return res
+	}
 	shims["verifAssume"] = func(in *Interp, fr *frame, args []value) value {
 		in.assume(args[0].(*Term))
 		return nil
@@ -206,8 +220,34 @@ func init() {
 		}
 		return res
 	}
+	// verifAfterNum: the text following the first rendered number of a line
+	shims["verifAfterNum"] = func(in *Interp, fr *frame, args []value) value {
+		r := in.ropeOf(args[0])
+		for i, a := range r.atoms {
+			if a.op != nil && isFloatVerb(a.op.verb) {
+				return normStr(&Rope{atoms: r.atoms[i+1:]})
+			}
+		}
+		return ""
+	}
 	shims["verifEventCount"] = func(in *Interp, fr *frame, args []value) value {
 		return in.intConst(int64(len(in.path.events)))
+	}
+	shims["verifEventKind"] = func(in *Interp, fr *frame, args []value) value {
+		i := in.toInt(args[0], "event index")
+		ev := in.path.events[i]
+		for k := 1; k <= 3; k++ {
+			if ch, ok := args[k].(*Chan); ok && ch != nil && ch.id == ev.Chan {
+				return in.intConst(int64(k - 1))
+			}
+		}
+		return in.intConst(-1)
+	}
+	shims["verifEventNode"] = func(in *Interp, fr *frame, args []value) value {
+		return in.path.events[in.toInt(args[0], "event index")].Val
+	}
+	shims["verifEventErr"] = func(in *Interp, fr *frame, args []value) value {
+		return in.path.events[in.toInt(args[0], "event index")].Val
 	}
 }
 
@@ -254,3 +294,5 @@ func (in *Interp) newError(msg value) value {
 func nilError() value { return iface{} }
 
 func (in *Interp) boolV(b bool) *Term { return in.tb.Bool(b) }
+
+func typesPointer(t types.Type) types.Type { return types.NewPointer(t) }
